@@ -11,7 +11,7 @@ for every naming of packets, injective ones included, so nothing is lost).
 -/
 namespace MimicProofs.HandlersCode
 open Mimic.Py Mimic.Extracted.HandlersCode
-open Mimic.Extracted.ParsersCode (ComQuery ComStmtFetch ComStmtReset ComStmtClose ComStmtSendLongData parse_handle_stmt_fetch parse_com_stmt_reset parse_com_stmt_close parse_com_stmt_send_long_data)
+open Mimic.Extracted.ParsersCode (ComQuery ComFieldList ComStmtFetch ComStmtReset ComStmtClose ComStmtSendLongData parse_handle_stmt_fetch parse_com_stmt_reset parse_com_stmt_close parse_com_stmt_send_long_data)
 
 /-! ### dictionaries -/
 
@@ -351,7 +351,7 @@ theorem handle_stmt_send_long_data_spec (c : Connection S) (data : Bytes) (f : C
 /-! ### successive fetches, on the bytes themselves -/
 
 /-- the packets a fetch writes: the rows (buffered), a drain, the terminator with its status flag -/
-def fetchOut (c : Connection S) (ps : List Bytes) (a l w fl : Nat) : List Ev :=
+def fetchOut (c : Connection S) (ps : List Bytes) (a l w fl : Nat) : List (Ev S) :=
   ps.map (fun p => Ev.write p false) ++ [Ev.drain, Ev.write (ok_or_eof c a l w fl) true]
 
 /-- one COM_STMT_FETCH on a statement whose cursor does not raise, stated on the code's own objects -/
@@ -389,12 +389,12 @@ theorem handle_stmt_fetch_exact (c : Connection S) (data : Bytes) (f : ComStmtFe
       rw [hget, ← hcur]
 
 /-- the rows written by a handler (buffered writes; terminators are written with a drain) -/
-def rowsOut : List Ev → List Bytes
+def rowsOut : List (Ev S) → List Bytes
   | [] => []
   | .write p false :: rest => p :: rowsOut rest
   | _ :: rest => rowsOut rest
 
-theorem rowsOut_append (a b : List Ev) : rowsOut (a ++ b) = rowsOut a ++ rowsOut b := by
+theorem rowsOut_append (a b : List (Ev S)) : rowsOut (a ++ b) = rowsOut a ++ rowsOut b := by
   induction a with
   | nil => rfl
   | cons x xs ih =>
@@ -403,11 +403,12 @@ theorem rowsOut_append (a b : List Ev) : rowsOut (a ++ b) = rowsOut a ++ rowsOut
     | drain => simp [rowsOut, ih]
     | session_reset => simp [rowsOut, ih]
     | reset_seq => simp [rowsOut, ih]
+    | session_use d => simp [rowsOut, ih]
 
 theorem rowsOut_fetchOut (c : Connection S) (ps : List Bytes) (a l w fl : Nat) : rowsOut (fetchOut c ps a l w fl) = ps := by
   unfold fetchOut
   rw [rowsOut_append]
-  have : rowsOut (ps.map (fun p => Ev.write p false)) = ps := by
+  have : rowsOut (S := S) (ps.map (fun p => Ev.write p false)) = ps := by
     induction ps with
     | nil => rfl
     | cons p ps ih => simp [rowsOut, ih]
@@ -561,7 +562,7 @@ theorem exec_rows_loop : ∀ (rows : List Bytes) (boom : Bool) (self : Connectio
     simp only [Gen.iterE, Connection_handle_stmt_execute_loop1, ih, List.map_cons, List.append_assoc, List.singleton_append]
 
 /-- the metadata block of a binary result: the column count and one definition per column, each written with a drain -/
-def execMeta (coldef : Nat → Nat → Bytes) (c : Connection S) (rs : ResultSet S) : List Ev :=
+def execMeta (coldef : Nat → Nat → Bytes) (c : Connection S) (rs : ResultSet S) : List (Ev S) :=
   Ev.write (Mimic.Extracted.Types.uint_len rs.columns.length) true :: rs.columns.map (fun col => Ev.write (coldef c.server_charset col) true)
 
 /-- the statement as every execution leaves it before the application is asked: long data and the old cursor are gone -/
@@ -636,7 +637,7 @@ def absResult (row : Bytes → Nat) (r : Option (ResultSet S)) : Option Mimic.Cu
   | some rs => if rs.columns.isEmpty then none else some (absGen row rs.rows)
   | none => none
 
-theorem absStmts_set (row : Bytes → Nat) (c : Connection S) (k : Nat) (st : PreparedStatement S) (o : List Ev) :
+theorem absStmts_set (row : Bytes → Nat) (c : Connection S) (k : Nat) (st : PreparedStatement S) (o : List (Ev S)) :
     absStmts row ({ c with prepared_stmts := dictSet c.prepared_stmts k st, out := o } : Connection S)
       = Mimic.Cursor.upd (absStmts row c) k (some (absStmt row st)) := by
   funext j
@@ -765,7 +766,7 @@ theorem query_rows_loop : ∀ (rows : List Bytes) (boom : Bool) (self : Connecti
     rw [this]
 
 /-- the metadata block of a text result: the column-count packet and one definition per column, all buffered -/
-def queryMeta (coldef : Nat → Nat → Bytes) (c : Connection S) (rs : ResultSet S) : List Ev :=
+def queryMeta (coldef : Nat → Nat → Bytes) (c : Connection S) (rs : ResultSet S) : List (Ev S) :=
   Ev.write (Mimic.Extracted.ParsersCode.make_column_count c.capabilities rs.columns.length) false ::
     rs.columns.map (fun col => Ev.write (coldef c.server_charset col) false)
 
@@ -831,13 +832,14 @@ theorem simple_handlers_spec (c : Connection S) (data : Bytes) :
 translated handlers, for every result size. -/
 
 /-- `false`: a packet goes into the write buffer; `true`: a flush point (`drain()`, or the drain of `write(p)`) -/
-def evShape : List Ev → List Bool
+def evShape : List (Ev S) → List Bool
   | [] => []
   | .write _ false :: r => false :: evShape r
   | .write _ true :: r => false :: true :: evShape r
   | .drain :: r => true :: evShape r
   | .session_reset :: r => evShape r
   | .reset_seq :: r => evShape r
+  | .session_use _ :: r => evShape r
 
 def opShape : List Mimic.Conn.Op → List Bool
   | [] => []
@@ -845,7 +847,7 @@ def opShape : List Mimic.Conn.Op → List Bool
   | .drain :: r => true :: opShape r
   | _ :: r => opShape r
 
-theorem evShape_append (a b : List Ev) : evShape (a ++ b) = evShape a ++ evShape b := by
+theorem evShape_append (a b : List (Ev S)) : evShape (a ++ b) = evShape a ++ evShape b := by
   induction a with
   | nil => rfl
   | cons x xs ih =>
@@ -854,33 +856,34 @@ theorem evShape_append (a b : List Ev) : evShape (a ++ b) = evShape a ++ evShape
     | drain => simp [evShape, ih]
     | session_reset => simp [evShape, ih]
     | reset_seq => simp [evShape, ih]
+    | session_use d => simp [evShape, ih]
 
 theorem opShape_append (a b : List Mimic.Conn.Op) : opShape (a ++ b) = opShape a ++ opShape b := by
   induction a with
   | nil => rfl
   | cons x xs ih => cases x <;> simp [opShape, ih]
 
-theorem evShape_buffered (ps : List Bytes) : evShape (ps.map (fun p => Ev.write p false)) = List.replicate ps.length false := by
+theorem evShape_buffered (ps : List Bytes) : evShape (S := S) (ps.map (fun p => Ev.write p false)) = List.replicate ps.length false := by
   induction ps with
   | nil => rfl
   | cons p ps ih => simp [evShape, ih, List.replicate_succ]
 
-theorem evShape_flushed (ps : List Bytes) : evShape (ps.map (fun p => Ev.write p true)) = (List.replicate ps.length [false, true]).flatten := by
+theorem evShape_flushed (ps : List Bytes) : evShape (S := S) (ps.map (fun p => Ev.write p true)) = (List.replicate ps.length [false, true]).flatten := by
   induction ps with
   | nil => rfl
   | cons p ps ih => simp [evShape, ih, List.replicate_succ]
 
-theorem evShape_buffered' {α : Type} (f : α → Bytes) (xs : List α) : evShape (xs.map (fun x => Ev.write (f x) false)) = List.replicate xs.length false := by
+theorem evShape_buffered' {α : Type} (f : α → Bytes) (xs : List α) : evShape (S := S) (xs.map (fun x => Ev.write (f x) false)) = List.replicate xs.length false := by
   induction xs with
   | nil => rfl
   | cons p ps ih => simp [evShape, ih, List.replicate_succ]
 
-theorem evShape_flushed' {α : Type} (f : α → Bytes) (xs : List α) : evShape (xs.map (fun x => Ev.write (f x) true)) = (List.replicate xs.length [false, true]).flatten := by
+theorem evShape_flushed' {α : Type} (f : α → Bytes) (xs : List α) : evShape (S := S) (xs.map (fun x => Ev.write (f x) true)) = (List.replicate xs.length [false, true]).flatten := by
   induction xs with
   | nil => rfl
   | cons p ps ih => simp [evShape, ih, List.replicate_succ]
 
-theorem evShape_replicate_buffered (n : Nat) (p : Bytes) : evShape (List.replicate n (Ev.write p false)) = List.replicate n false := by
+theorem evShape_replicate_buffered (n : Nat) (p : Bytes) : evShape (S := S) (List.replicate n (Ev.write p false)) = List.replicate n false := by
   induction n with
   | zero => rfl
   | succ k ih => simp [List.replicate_succ, evShape, ih]
@@ -991,11 +994,101 @@ theorem prepare_script_is_code (E : Env S) (cp : S → Nat) (pc : Nat → Bytes)
   · simp [h0, evShape, opShape]
   · cases hdep : deprecate_eof c <;> simp [h0, hdep, evShape, opShape, evShape_append, evShape_replicate_buffered, List.map_replicate]
 
+/-! ### COM_INIT_DB and COM_FIELD_LIST -/
+
+/-- **`handle_init_db`, translated**: the application's `use` callback is told exactly the decoded name; one OK follows unless
+    the callback raises; an undecodable name raises before the application hears anything -/
+theorem handle_init_db_spec (E : Env S) (ur : S → Bool) (c : Connection S) (data : Bytes) :
+    match Mimic.Extracted.ParsersCode.parse_com_init_db E c.client_charset data with
+    | none => handle_init_db E ur c data = .error c
+    | some db =>
+      if ur db then handle_init_db E ur c data = .error { c with out := c.out ++ [Ev.session_use db] }
+      else ∃ (e : Bool) (a l w f : Nat),
+        handle_init_db E ur c data = .ok { c with out := c.out ++ [Ev.session_use db, Ev.write (ok c e a l w f) true] } := by
+  unfold handle_init_db
+  cases hp : Mimic.Extracted.ParsersCode.parse_com_init_db E c.client_charset data with
+  | none => rfl
+  | some db =>
+    simp only
+    by_cases hu : ur db = true
+    · simp only [hu, if_true]
+    · simp only [hu, Bool.false_eq_true, if_false]
+      exact ⟨_, _, _, _, _, by simp only [List.append_assoc, List.cons_append, List.nil_append]; rfl⟩
+
+theorem field_rows_loop (fcd : Nat → S → Bytes → Bytes) (f : ComFieldList S) : ∀ (rows : List Bytes) (boom : Bool) (self : Connection S) (rs : ResultSet S),
+    Gen.iterE (σ := Connection S × ResultSet S) (ρ := Connection S) (fun _ st => st) Connection_handle_field_list_loop2
+        (Connection_handle_field_list_loop1 fcd f) rows boom (self, rs)
+      = if boom then .error { self with out := self.out ++ rows.map (fun r => Ev.write (fcd self.server_charset f.table r) false) }
+        else .ok (.brk ({ self with out := self.out ++ rows.map (fun r => Ev.write (fcd self.server_charset f.table r) false) }, rs)) := by
+  intro rows
+  induction rows with
+  | nil => intro boom self rs; cases boom <;> simp [Gen.iterE, Connection_handle_field_list_loop2]
+  | cons x rest ih =>
+    intro boom self rs
+    simp only [Gen.iterE, Connection_handle_field_list_loop1, ih, List.map_cons, List.append_assoc, List.singleton_append]
+
+/-- **`handle_field_list`, translated**: one buffered definition per row of the application's answer to the SHOW COLUMNS text,
+    in order, then one terminator written with a drain; a failing application writes nothing, a failing row source leaves
+    the definitions before it -/
+theorem handle_field_list_spec (E : Env S) (app : S → Option (ResultSet S)) (fls : ComFieldList S → S) (fcd : Nat → S → Bytes → Bytes)
+    (c : Connection S) (data : Bytes) :
+    match Mimic.Extracted.ParsersCode.parse_com_field_list E c.client_charset data with
+    | none => handle_field_list E app fls fcd c data = .error c
+    | some f =>
+      match app (fls f) with
+      | none => handle_field_list E app fls fcd c data = .error c
+      | some rs =>
+        ∃ (a l w fl : Nat),
+          let sent := c.out ++ rs.rows.rows.map (fun r => Ev.write (fcd c.server_charset f.table r) false)
+          handle_field_list E app fls fcd c data
+            = if rs.rows.boom then .error { c with out := sent }
+              else .ok { c with out := sent ++ [Ev.write (ok_or_eof c a l w fl) true] } := by
+  unfold handle_field_list
+  cases hp : Mimic.Extracted.ParsersCode.parse_com_field_list E c.client_charset data with
+  | none => rfl
+  | some f =>
+    simp only
+    cases ha : app (fls f) with
+    | none => rfl
+    | some rs =>
+      simp only [field_rows_loop]
+      by_cases hb : rs.rows.boom = true
+      · simp only [hb, if_true]
+        exact ⟨0, 0, 0, 0, by first | rfl | trivial⟩
+      · simp only [hb, Bool.false_eq_true, if_false]
+        exact ⟨_, _, _, _, by simp only [List.append_assoc]; rfl⟩
+
+/-- COM_INIT_DB: the script's wire skeleton (one packet, one flush) is the code's -/
+theorem initdb_script_is_code (E : Env S) (ur : S → Bool) (c : Connection S) (data : Bytes) (db : S) (dep : Bool)
+    (hp : Mimic.Extracted.ParsersCode.parse_com_init_db E c.client_charset data = some db) (hu : ur db = false) :
+    ∃ c' tail, handle_init_db E ur c data = .ok c' ∧ c'.out = c.out ++ tail ∧
+      evShape tail = opShape (Mimic.Script.scriptOf dep (.initDb false)) := by
+  have h := handle_init_db_spec E ur c data
+  simp only [hp, hu, Bool.false_eq_true, if_false] at h
+  obtain ⟨e, a, l, w, f, h⟩ := h
+  exact ⟨_, _, h, rfl, rfl⟩
+
+/-- COM_FIELD_LIST: one buffered definition per row, then the terminator and a flush — the script's skeleton -/
+theorem fieldlist_script_is_code (E : Env S) (app : S → Option (ResultSet S)) (fls : ComFieldList S → S) (fcd : Nat → S → Bytes → Bytes)
+    (c : Connection S) (data : Bytes) (f : ComFieldList S) (rs : ResultSet S) (dep : Bool)
+    (hp : Mimic.Extracted.ParsersCode.parse_com_field_list E c.client_charset data = some f) (ha : app (fls f) = some rs)
+    (hb : rs.rows.boom = false) :
+    ∃ c' tail, handle_field_list E app fls fcd c data = .ok c' ∧ c'.out = c.out ++ tail ∧
+      evShape tail = opShape (Mimic.Script.scriptOf dep (.fieldList { rows := plainRows rs.rows.rows.length })) := by
+  have h := handle_field_list_spec E app fls fcd c data
+  simp only [hp, ha, hb, Bool.false_eq_true, if_false] at h
+  obtain ⟨a, l, w, fl, h⟩ := h
+  refine ⟨_, rs.rows.rows.map (fun r => Ev.write (fcd c.server_charset f.table r) false) ++ [Ev.write (ok_or_eof c a l w fl) true], h,
+    by simp only [List.append_assoc], ?_⟩
+  simp only [Mimic.Script.scriptOf, Mimic.Script.callOps, opShape_append, evShape_append, opShape, evShape, evShape_buffered',
+    opShape_colDefs_buffered, plainRows, List.length_replicate, ne_eq, not_true_eq_false, if_false, List.nil_append, List.cons_append]
+
 /-! ### one iteration of the command loop (`command_phase`, kills excluded) -/
 
 section step
 variable (E : Env S) (cp : S → Nat) (pc : Nat → Bytes) (coldef : Nat → Nat → Bytes)
   (parse : Connection S → Bytes → Option (ComStmtExecute S)) (app : S → Option (ResultSet S))
+  (ur : S → Bool) (fls : ComFieldList S → S) (fcd : Nat → S → Bytes → Bytes)
   (other : Nat → Connection S → Bytes → Except (Connection S) (Connection S)) (err : Connection S → Bytes)
 
 /-- **What one iteration adds to the wire, for every packet**: whatever the dispatched handler wrote; then, *iff* it raised (a
@@ -1006,16 +1099,16 @@ theorem command_step_spec (c : Connection S) (data : Bytes) :
     let c1 : Connection S := { c with _executing := true }
     match data with
     | [] =>
-      command_step E cp pc coldef parse app other err c data
+      command_step E cp pc coldef parse app ur fls fcd other err c data
         = ({ c with _executing := false, out := c.out ++ [Ev.write (err { c with _executing := false }) true, Ev.reset_seq] }, true)
     | command :: rest =>
-      match dispatch E cp pc coldef parse app other c1 command.toNat rest with
+      match dispatch E cp pc coldef parse app ur fls fcd other c1 command.toNat rest with
       | .ok (some s) =>
-        command_step E cp pc coldef parse app other err c data = ({ s with _executing := false, out := s.out ++ [Ev.reset_seq] }, true)
+        command_step E cp pc coldef parse app ur fls fcd other err c data = ({ s with _executing := false, out := s.out ++ [Ev.reset_seq] }, true)
       | .ok none =>
-        command_step E cp pc coldef parse app other err c data = ({ c with _executing := false, out := c.out ++ [Ev.reset_seq] }, false)
+        command_step E cp pc coldef parse app ur fls fcd other err c data = ({ c with _executing := false, out := c.out ++ [Ev.reset_seq] }, false)
       | .error s =>
-        command_step E cp pc coldef parse app other err c data
+        command_step E cp pc coldef parse app ur fls fcd other err c data
           = ({ s with _executing := false, out := s.out ++ [Ev.write (err { s with _executing := false }) true, Ev.reset_seq] }, true) := by
   intro c1
   cases data with
@@ -1024,17 +1117,17 @@ theorem command_step_spec (c : Connection S) (data : Bytes) :
     simp only [command_step, List.append_assoc, List.cons_append, List.nil_append]
   | cons command rest =>
     dsimp only
-    cases h : dispatch E cp pc coldef parse app other c1 command.toNat rest with
+    cases h : dispatch E cp pc coldef parse app ur fls fcd other c1 command.toNat rest with
     | error s =>
-      have h' : dispatch E cp pc coldef parse app other { c with _executing := true } command.toNat rest = .error s := h
+      have h' : dispatch E cp pc coldef parse app ur fls fcd other { c with _executing := true } command.toNat rest = .error s := h
       simp only [command_step, h', List.append_assoc, List.cons_append, List.nil_append]
     | ok o =>
       cases o with
       | none =>
-        have h' : dispatch E cp pc coldef parse app other { c with _executing := true } command.toNat rest = .ok none := h
+        have h' : dispatch E cp pc coldef parse app ur fls fcd other { c with _executing := true } command.toNat rest = .ok none := h
         simp only [command_step, h']
       | some s =>
-        have h' : dispatch E cp pc coldef parse app other { c with _executing := true } command.toNat rest = .ok (some s) := h
+        have h' : dispatch E cp pc coldef parse app ur fls fcd other { c with _executing := true } command.toNat rest = .ok (some s) := h
         simp only [command_step, h']
 
 theorem map_some_ne_none {ε α : Type} (x : Except ε α) : x.map some ≠ .ok none := by
@@ -1042,7 +1135,7 @@ theorem map_some_ne_none {ε α : Type} (x : Except ε α) : x.map some ≠ .ok 
 
 /-- the loop ends (`return`) only on COM_QUIT, whatever the handlers do -/
 theorem dispatch_quit_iff (c : Connection S) (command : Nat) (rest : Bytes) :
-    dispatch E cp pc coldef parse app other c command rest = .ok none ↔ command = 1 := by
+    dispatch E cp pc coldef parse app ur fls fcd other c command rest = .ok none ↔ command = 1 := by
   constructor
   · intro h
     by_cases hne : command = 1
@@ -1095,7 +1188,7 @@ theorem dispatch_quit_iff (c : Connection S) (command : Nat) (rest : Bytes) :
 
 /-- an unsupported command byte raises in the dispatch (and is therefore answered by exactly one ERR) -/
 theorem dispatch_unsupported (c : Connection S) (command : Nat) (rest : Bytes) (h : command ∉ dispatched) :
-    dispatch E cp pc coldef parse app other c command rest = .error c := by
+    dispatch E cp pc coldef parse app ur fls fcd other c command rest = .error c := by
   unfold dispatch
   simp only [dispatched, List.mem_cons, List.mem_nil_iff, or_false, not_or] at h
   obtain ⟨h1, h2, h3, h4, h5, h6, h7, h8, h9, h10, h11, h12, h13, h14⟩ := h
@@ -1110,17 +1203,17 @@ theorem query_command_response (c : Connection S) (payload : Bytes) (q : ComQuer
     ∃ (w f l w2 fl : Nat),
       let pre := if deprecate_eof c then [] else [Ev.write (eof c w f) false]
       let sent := c.out ++ queryMeta coldef c rs ++ pre ++ rs.rows.rows.map (fun p => Ev.write p false)
-      (command_step E cp pc coldef parse app other err c (3 :: payload)).2 = true ∧
-      ∃ e : Bytes, (command_step E cp pc coldef parse app other err c (3 :: payload)).1.out
+      (command_step E cp pc coldef parse app ur fls fcd other err c (3 :: payload)).2 = true ∧
+      ∃ e : Bytes, (command_step E cp pc coldef parse app ur fls fcd other err c (3 :: payload)).1.out
         = if rs.rows.boom then sent ++ [Ev.write e true, Ev.reset_seq]
           else sent ++ [Ev.write (ok_or_eof c rs.rows.rows.length l w2 fl) false, Ev.drain, Ev.reset_seq] := by
-  have hs := command_step_spec E cp pc coldef parse app other err c (3 :: payload)
+  have hs := command_step_spec E cp pc coldef parse app ur fls fcd other err c (3 :: payload)
   have hq := handle_query_spec E coldef app ({ c with _executing := true } : Connection S) payload
   have hp' : Mimic.Extracted.ParsersCode.parse_com_query E ({ c with _executing := true } : Connection S).capabilities
       ({ c with _executing := true } : Connection S).client_charset payload = some q := hp
   simp only [hp', ha, hne, Bool.false_eq_true, if_false] at hq
   obtain ⟨w, f, l, w2, fl, hq⟩ := hq
-  have hd : dispatch E cp pc coldef parse app other ({ c with _executing := true } : Connection S) (3 : UInt8).toNat payload
+  have hd : dispatch E cp pc coldef parse app ur fls fcd other ({ c with _executing := true } : Connection S) (3 : UInt8).toNat payload
       = (handle_query E coldef app ({ c with _executing := true } : Connection S) payload).map some := by
     simp [dispatch]
   refine ⟨w, f, l, w2, fl, ?_⟩
